@@ -129,6 +129,7 @@ type lmOffer struct {
 	changed map[string]bool // kinds of successful σ-changing ops since the offer was taken
 	noop    bool            // a successful Realloc that left σ unchanged happened since
 	failed  bool            // a failed op happened since
+	reset   bool            // a Reset() of an allocator without allocations happened since (documented to invalidate offers, releases nothing)
 }
 
 type lmSnap struct {
@@ -945,7 +946,7 @@ func (r *lmRun) doCommit(of *lmOffer, late bool) {
 		}
 		r.opFailed(kind, before, after, fmt.Sprintf("%s (%v)", what, err))
 		fmt.Fprintf(&r.trace, "C%d!;", q.h)
-		if !stale && !of.noop {
+		if !stale && !of.noop && !of.reset {
 			sig := "fresh-commit-refused"
 			if of.failed {
 				sig += ":after-failed-op"
@@ -1092,9 +1093,50 @@ func (r *lmRun) doRelease(op *lmOp) {
 	r.fitKey, _, _ = r.fitState(after.zone)
 }
 
+// doReset: Allocator.Reset() "resets the state of the allocator, releasing all allocations and invalidating all
+// offers". With allocations present it is a successful release of all of them (offers taken before it are stale from
+// then on, whatever happens later); the state afterwards must be the pristine one.
+func (r *lmRun) doReset() {
+	before := r.cur
+	p, site := Guard(func() { r.a.Reset() })
+	after := r.snap()
+	r.cur = after
+	if !r.quiet {
+		r.ctx.Eval()
+	}
+	if p != "" {
+		r.aborted = true
+		r.opFailed("reset", before, after, "Reset() (panic "+p+" at "+site+")")
+		return
+	}
+	r.count("ops_reset")
+	fmt.Fprintf(&r.trace, "Z;")
+	r.live = map[string]*lmReq{}
+	if r.twin {
+		return
+	}
+	if cls, det := r.expectState(map[string]uint64{}, after); cls != "" {
+		r.violate("C06", "release-exact", "reset:"+cls, "Reset() did not release every allocation: %s", det)
+	}
+	if len(before.zone) > 0 {
+		r.count("resets_with_allocations")
+		r.noteChanged("reset")
+	} else {
+		for _, o := range r.offers {
+			o.reset = true
+		}
+	}
+	if len(r.offers) > 0 {
+		r.count("resets_with_offers_outstanding")
+	}
+	r.fitKey, _, _ = r.fitState(after.zone)
+}
+
 func (r *lmRun) exec(idx int, op *lmOp) {
 	r.opIdx = idx
 	switch op.Kind {
+	case "reset":
+		r.doReset()
 	case "alloc":
 		r.doAllocate(op, "alloc")
 	case "dup-alloc":
@@ -1500,6 +1542,9 @@ func (g *lmGen) next() lmOp {
 		if h, ok := g.liveHandle(); ok {
 			return lmOp{Kind: "release", H: h, Prio: -1}
 		}
+	}
+	if len(g.r.offers) > 0 && rng.Chance(1, 25) {
+		return lmOp{Kind: "reset", H: -1, Prio: -1}
 	}
 	for {
 		switch x := rng.Intn(100); {
